@@ -411,6 +411,7 @@ type c08Tree struct {
 	Dirs  c08Dirs    `json:"dirs"`
 	Own   []c08Res   `json:"own"`
 	Bases []*c08Tree `json:"bases,omitempty"`
+	Crd   string     `json:"crd,omitempty"` // content of crd.json, declared through `crds:` (c08_crds.go); never sent to the model
 }
 
 var c08CustomFields = []c08fsSpec{
@@ -526,6 +527,9 @@ func kustomizationYaml(t *c08Tree) string {
 			fmt.Fprintf(&b, "- %s.yaml\n", r.Name)
 		}
 	}
+	if t.Crd != "" {
+		b.WriteString("crds:\n- crd.json\n")
+	}
 	d := t.Dirs
 	if len(d.CommonLabels) > 0 {
 		b.WriteString("commonLabels:\n")
@@ -579,6 +583,11 @@ func writeTree(fs filesys.FileSystem, dir string, t *c08Tree) error {
 	}
 	if err := fs.WriteFile(dir+"/kustomization.yaml", []byte(kustomizationYaml(t))); err != nil {
 		return err
+	}
+	if t.Crd != "" {
+		if err := fs.WriteFile(dir+"/crd.json", []byte(t.Crd)); err != nil {
+			return err
+		}
 	}
 	for _, r := range t.Own {
 		if err := fs.WriteFile(dir+"/"+r.Name+".yaml", []byte(r.Yaml)); err != nil {
@@ -676,6 +685,9 @@ func coqDirs(d c08Dirs) string {
 }
 
 func c08coqLayer(t *c08Tree) (string, bool) {
+	if t.Crd != "" {
+		return "", false // the CRD loader is outside the model
+	}
 	own := []string{}
 	for _, r := range t.Own {
 		n, err := kyaml.Parse(r.Yaml)
@@ -1471,7 +1483,7 @@ func runBuildCase(r *Run, t *c08Tree, toModel bool) {
 }
 
 func stripFields(t *c08Tree) (*c08Tree, bool) {
-	out := &c08Tree{Own: t.Own, Dirs: t.Dirs}
+	out := &c08Tree{Own: t.Own, Dirs: t.Dirs, Crd: t.Crd}
 	had := false
 	out.Dirs.Labels = nil
 	for _, e := range t.Dirs.Labels {
@@ -1551,7 +1563,7 @@ func oracleFields08(r *Run, t *c08Tree, flat []flatRes, bo buildOut) {
 }
 
 func stripDirs(t *c08Tree) *c08Tree {
-	out := &c08Tree{Own: t.Own}
+	out := &c08Tree{Own: t.Own, Crd: t.Crd}
 	for _, b := range t.Bases {
 		out.Bases = append(out.Bases, stripDirs(b))
 	}
@@ -1641,9 +1653,9 @@ func configBuild08(r *Run, rng *Rng) {
 
 func runC08(r *Run, rng *Rng, tier string) error {
 	rng = rng.Fork() // decorrelate consecutive seeds (NewRng streams of s and s+1 overlap)
-	nBuild, nFilter, nSearch := 260, 500, 500
+	nBuild, nFilter, nSearch, nCrd := 260, 500, 500, 150
 	if tier == "thorough" {
-		nBuild, nFilter, nSearch = 2200, 4500, 9000
+		nBuild, nFilter, nSearch, nCrd = 2200, 4500, 9000, 2500
 	}
 	r.Meta.Rule = "builds: kustomization trees of depth 1-3 (0-2 bases per layer, 0-3 resources per layer) over Deployment/StatefulSet/DaemonSet/ReplicaSet/Job/CronJob/Pod/" +
 		"ReplicationController/Service/NetworkPolicy/PodDisruptionBudget/ConfigMap/custom kind, label maps present/absent/{}/null, rare odd shapes; directives commonLabels, " +
@@ -1675,6 +1687,10 @@ func runC08(r *Run, rng *Rng, tier string) error {
 		cnt := 0
 		runBuildCase(r, c08genTree(g, 1+g.Intn(3), &cnt, true), false)
 	}
+	// `crds:` builds (custom kinds declared through OpenAPI extensions), implementation-level laws only: c08_crds.go
+	for i := 0; i < nCrd; i++ {
+		crdBuild08(r, genCrdCase(rng.Fork()))
+	}
 	return nil
 }
 
@@ -1692,8 +1708,30 @@ func replayC08(path string) (bool, string, error) {
 	var wrap struct {
 		Build  *c08Tree        `json:"build"`
 		Filter *c08FilterCase  `json:"filter"`
+		Crd    *c08CrdCase     `json:"crd"`
 	}
 	_ = json.Unmarshal(rp.Case, &wrap)
+	if wrap.Crd == nil {
+		var cc c08CrdCase
+		if err := json.Unmarshal(rp.Case, &cc); err == nil && cc.Tree != nil && cc.Kind != "" {
+			wrap.Crd = &cc
+		}
+	}
+	if wrap.Crd != nil && wrap.Crd.Tree != nil {
+		rr := NewRun("C08", "replay", 0, "", "")
+		crdBuild08(rr, wrap.Crd)
+		bo := runBuild(wrap.Crd.Tree)
+		var b strings.Builder
+		fmt.Fprintf(&b, "class=%s msg=%q\n", bo.cls, bo.msg)
+		for name, o := range bo.outs {
+			s, _ := o.String()
+			fmt.Fprintf(&b, "--- %s\n%s", name, s)
+		}
+		for _, v := range rr.Meta.Violations {
+			fmt.Fprintf(&b, "LAW %s class=%s: %s\n", v.Law, v.Class, v.Detail)
+		}
+		return len(rr.Meta.Violations) > 0 || bo.cls == ClsPanic, b.String(), nil
+	}
 	t := wrap.Build
 	if t == nil && wrap.Filter == nil {
 		var tt c08Tree
